@@ -1,6 +1,7 @@
 """The passes of a check (DESIGN section 8)."""
 import json
 import os
+import re
 
 import plan
 import vcheck
@@ -18,17 +19,124 @@ def trace_pass(ctx):
     ctx.cov["traces_validated_against_impl"] += info["scenarios"] + info["walks"]
     ctx.cov["evaluations"] += info["events"]
     ctx.cov["samples"] += vcheck.sample_events(trace)
-    return ctx.judge_traces(trace, props, invs)
+    ok = ctx.judge_traces(trace, props, invs)
+    if ok:
+        conformance_pass(ctx, trace)
+    return ok
+
+
+def conformance_pass(ctx, trace):
+    """P_Conf: how many recorded reconciles are outcomes the decision procedures of the model allow (measured, not convicting)."""
+    cfg = ("SPECIFICATION Spec\nCONSTANT TraceFile = \"%s\"\nCONSTANT KnownFindings = {}\nCONSTANT Notes = FALSE\n"
+           "PROPERTY P_Conf\nPOSTCONDITION ConfReport\nCHECK_DEADLOCK FALSE\n" % trace)
+    try:
+        rc, out, dt, d = ctx.tlc("Trace.tla", cfg, "conformance", workers=1, timeout=600)
+    except vcheck.MachineryError as ex:
+        ctx.cov["conformance"] = {"error": str(ex)[:200]}
+        return
+    m = re.search(r'<<"CONF", (\d+), (\d+)>>', out)
+    drift = re.findall(r'<<"DRIFT", (\d+), "(\w+)">>', out)
+    if m:
+        tot, okn = int(m.group(1)), int(m.group(2))
+        ctx.cov["conformance"] = {"reconciles_compared": tot, "conformant": okn, "drift_lines": [int(x[0]) for x in drift[:20]], "wall_s": round(dt, 1),
+                                  "meaning": "recorded reconciles of the real code that are outcomes of the decision procedures in spec/Ctrl.tla (the bodies of the model's reconcile actions); 100% means the exhaustive design pass speaks about the code as it behaved here"}
+        if tot != okn:
+            vcheck.log("DRIFT property=%s %d of %d recorded reconciles are not outcomes of the model (non-convicting, see evidence)" % (ctx.pid, tot - okn, tot))
+
+
+def mc_cfg(c, props, invs, known):
+    kf = "{" + ", ".join('"%s"' % k for k in known) + "}"
+    s = "SPECIFICATION %s\nCONSTANTS\n" % c["spec"]
+    s += "  NodeSeq <- %s\n  TmplSeq <- %s\n  InitFits <- %s\n  Strat <- %s\n" % (c["nodes"], c["tmpls"], c["fits"], c["strat"])
+    s += "  EnvBudget = %d\n  EditBudget = %d\n  AnnBudget = %d\n  MaxPerNode = %d\n  AgeCap = %d\n" % (c["env"], c["edit"], c["ann"], c["per_node"], c["agecap"])
+    s += "  KnownFindings = %s\n  Notes = FALSE\nVIEW view\n" % kf
+    if invs:
+        s += "INVARIANT " + " ".join(invs) + "\n"
+    if props:
+        s += "PROPERTY " + " ".join(props) + "\n"
+    s += "CHECK_DEADLOCK FALSE\n"
+    return s
+
+
+def design_pass(ctx):
+    """Exhaustive TLC search of the bounded configurations of Cluster.tla with this property's formulas.
+    A counterexample in the MODEL is not a verdict about the code (DESIGN 2.3): it is reported as a machinery error
+    unless the same formula also fails on real-code behaviour (which the other passes decide)."""
+    todo = plan.MC.get(ctx.pid, {}).get(ctx.tier, [])
+    budget = 240 if ctx.tier == "quick" else 1500
+    for name, props, invs in todo:
+        c = plan.MC_CONFIGS[name]
+        cfg = mc_cfg(c, props, invs, ctx.known_ids)
+        try:
+            rc, out, dt, d = ctx.tlc(c["module"] + ".tla", cfg, "mc-" + name, workers=16, timeout=budget, extra=["-dumpTrace", "json", "cex.json"])
+            timed_out = False
+        except vcheck.MachineryError as ex:
+            if "timeout" not in str(ex):
+                raise
+            # a design pass that hits its time limit is not an error either way: the verdict comes from the real-code passes
+            out = open(os.path.join(ctx.work, "mc-" + name, "tlc.out")).read() if os.path.exists(os.path.join(ctx.work, "mc-" + name, "tlc.out")) else ""
+            timed_out, dt = True, budget
+        gen, dist = ctx.tlc_stats(out)
+        if timed_out:
+            ms = re.findall(r"([\d,]+) states generated.*?([\d,]+) distinct states found", out)
+            if ms:
+                gen, dist = int(ms[-1][0].replace(",", "")), int(ms[-1][1].replace(",", ""))
+        exhaustive = "Model checking completed. No error has been found." in out
+        ctx.cov["passes"].append({"pass": "design:" + name, "formulas": props + invs, "states_generated": gen, "distinct_states": dist,
+                                  "exhaustive": exhaustive, "wall_s": round(dt, 1), "constants": {k: c[k] for k in ("nodes", "strat", "env", "edit", "ann", "agecap")}})
+        ctx.cov["states"] += dist
+        ctx.cov["transitions"] += gen
+        m = re.search(r"(Action property|Invariant|Temporal property) (\S+) (is|was) violated", out)
+        if m:
+            raise vcheck.MachineryError("the MODEL violates %s in configuration %s (counterexample in %s/mc-%s); a model counterexample is not a verdict about the code: "
+                                        "convert it with bin/cex2trace and compare with the real code" % (m.group(2), name, ctx.work, name))
+        if not exhaustive and not timed_out:
+            raise vcheck.MachineryError("TLC design pass %s failed:\n%s" % (name, out[-2000:]))
+    ctx.cov["exhaustive"] = all(p.get("exhaustive", True) for p in ctx.cov["passes"] if p["pass"].startswith("design:"))
+
+
+def b3_pass(ctx):
+    ok = True
+    for spec in plan.B3.get(ctx.pid, []):
+        gen = spec["gen"]
+        vec = os.path.join(ctx.work, gen + ".vectors.ndjson")
+        cfg = "CONSTANTS\n  OutFile = \"%s\"\n  %s\n" % (vec, spec[ctx.tier])
+        rc, out, dt, d = ctx.tlc(gen + ".tla", cfg, "gen-" + gen, workers=1, timeout=900)
+        m = re.search(r'<<"VECTORS", (\d+)>>', out)
+        if not m or not os.path.exists(vec):
+            raise vcheck.MachineryError("vector generation %s failed:\n%s" % (gen, out[-2000:]))
+        nvec = int(m.group(1))
+        trace = os.path.join(ctx.work, gen + ".trace.ndjson")
+        o, dt2 = ctx.sim(["vectors", "-in", vec, "-out", trace], timeout=3000)
+        info = json.loads(o.strip().splitlines()[-1])
+        ctx.cov["passes"].append({"pass": "b3:" + gen, "vectors": nvec, "gen_wall_s": round(dt, 1), "harness_wall_s": round(dt2, 1), **info})
+        ctx.cov["evaluations"] += info["runs"]
+        ctx.cov["traces_validated_against_impl"] += info["runs"]
+        with open(vec) as f:
+            ctx.cov["samples"].append({"vector": json.loads(f.readline())})
+        props = [p for p in spec["props"]]
+        if not ctx.judge_traces(trace, props, [], label="b3-" + gen):
+            ok = False
+            break
+        os.remove(trace)
+        os.remove(vec)
+    return ok
 
 
 def run_property(ctx):
     ok = trace_pass(ctx)
+    if ok:
+        ok = b3_pass(ctx)
+    if ok:
+        design_pass(ctx)
     ctx.write_evidence("model_checking", rule=plan.RULES["default"])
     return ok
 
 
 def replay(ctx, path):
     props, invs = plan.TRACE.get(ctx.pid, ([], []))
+    for spec in plan.B3.get(ctx.pid, []):
+        props = sorted(set(props) | set(spec["props"]))
     res = ctx.validate_traces(os.path.abspath(path), props, invs, "replay")
     if res is None:
         vcheck.log("replay accepted: no formula of %s fails on %s" % (ctx.pid, path))
